@@ -56,6 +56,7 @@ func checkC17(p *ana.Prog, r *ana.Result) {
 	c17Reset(p, r, "NtimedFilter", nil)
 	c17Reset(p, r, "LuckyPacketFilter", map[string]string{"luckyPkts": "scratch"})
 	c17NtimedEpoch(p, r)
+	c17NtimedRaw(p, r)
 	c17Lucky(p, r)
 }
 
@@ -438,4 +439,212 @@ func comparatorField(cf *ssa.Function) string {
 		return f
 	}
 	return "?"
+}
+
+// c17NtimedRaw: the clause "raw offset (correct sign) while fewer than four
+// samples have been seen since the last reset and whenever the sample lies
+// within the learned bounds" over the sample counter's finite domain.
+func c17NtimedRaw(p *ana.Prog, r *ana.Result) {
+	do := mustFunc(p, r, "core/client", "(*NtimedFilter).Do")
+	comb := mustFunc(p, r, "core/client", "combine")
+	if do == nil || comb == nil {
+		return
+	}
+	fname := ana.FuncName(do)
+	isNavgLoad := func(v ssa.Value) bool {
+		u, ok := v.(*ssa.UnOp)
+		if !ok || u.Op != token.MUL {
+			return false
+		}
+		fa, ok := u.X.(*ssa.FieldAddr)
+		return ok && fa.X == ssa.Value(do.Params[0]) && fieldNameOf(fa.X.Type(), fa.Field) == "navg"
+	}
+	// (1) the raw value and its sign: mid = (cTx.Sub(sRx).Seconds() + cRx.Sub(sTx).Seconds()) / 2
+	secondsOfSub := func(v ssa.Value, a, b int) bool {
+		c, _ := ana.CallOf(v)
+		if c == nil || ana.CalleeName(c.Common()) != "(time.Duration).Seconds" {
+			return false
+		}
+		s, _ := ana.CallOf(c.Common().Args[0])
+		if s == nil || ana.CalleeName(s.Common()) != "(time.Time).Sub" {
+			return false
+		}
+		return s.Common().Args[0] == ssa.Value(do.Params[a]) && s.Common().Args[1] == ssa.Value(do.Params[b])
+	}
+	var raw, lo, hi ssa.Value
+	ana.Instrs(do, func(in ssa.Instruction) {
+		bo, ok := in.(*ssa.BinOp)
+		if !ok || bo.Op != token.QUO {
+			return
+		}
+		if k, ok := constFloatOf(bo.Y); !ok || k != 2 {
+			return
+		}
+		sum, ok := bo.X.(*ssa.BinOp)
+		if !ok || sum.Op != token.ADD {
+			return
+		}
+		// params: 0 f, 1 cTxTime, 2 sRxTime, 3 sTxTime, 4 cRxTime
+		if secondsOfSub(sum.X, 1, 2) && secondsOfSub(sum.Y, 4, 3) {
+			raw, lo, hi = bo, sum.X, sum.Y
+		} else if secondsOfSub(sum.Y, 1, 2) && secondsOfSub(sum.X, 4, 3) {
+			raw, lo, hi = bo, sum.Y, sum.X
+		}
+	})
+	if raw == nil {
+		r.Violate("C17.ntimed", fname, "raw-offset-form", p.Pos(do.Pos()), "the raw value (cTx-sRx + cRx-sTx)/2 is not computed from the four timestamps in these roles (sign or pairing of the raw offset changed)")
+		return
+	}
+	// result = Inv(combine(_, Duration(mid), _, _)#0), combine returns its mid parameter
+	cs := ana.CallsIn(do, ana.Q("core/client.combine"))
+	okOut := false
+	var mid ssa.Value
+	if len(cs) == 1 {
+		if dc, _ := ana.CallOf(cs[0].Common().Args[1]); dc != nil && ana.CalleeName(dc.Common()) == ana.Q("base/timemath.Duration") {
+			mid = dc.Common().Args[0]
+		}
+		combOK := true
+		for _, ret := range combReturns(comb) {
+			if ret.Results[0] != ssa.Value(comb.Params[1]) {
+				combOK = false
+			}
+		}
+		for _, ret := range combReturns(do) {
+			if ic, _ := ana.CallOf(ret.Results[0]); ic != nil && ana.CalleeName(ic.Common()) == ana.Q("base/timemath.Inv") {
+				if e, ok := ic.Common().Args[0].(*ssa.Extract); ok && e.Index == 0 && e.Tuple == cs[0].Value() && combOK {
+					okOut = true
+				}
+			}
+		}
+	}
+	if okOut && mid != nil {
+		r.Ok("C17.ntimed", fname, "raw-offset-form", posOf(p, cs[0]), "Do returns Inv(mid) where combine hands mid through unchanged and the raw mid is ((cTx-sRx)+(cRx-sTx))/2")
+	} else {
+		r.Violate("C17.ntimed", fname, "raw-offset-form", p.Pos(do.Pos()), "the returned offset is not Inv(combine(..., mid, ...)) with combine returning mid unchanged")
+		return
+	}
+	// (2) the sample counter: Reset stores 0; Do stores navg+1 once, under navg < C (C >= 4), before any arm test
+	var incr *ssa.Store
+	nStores := 0
+	for _, m := range methodsOf(p, "core/client", "NtimedFilter") {
+		for f, sts := range storedFields(m) {
+			if f != "navg" {
+				continue
+			}
+			for _, st := range sts {
+				if m.Name() == "Reset" {
+					if k, ok := constFloatOf(st.Val); !ok || k != 0 {
+						r.Violate("C17.ntimed", ana.FuncName(m), "counter-reset-to-zero", posOf(p, st), "Reset does not set the sample counter to 0")
+					}
+					continue
+				}
+				nStores++
+				if m == do {
+					incr = st
+				}
+			}
+		}
+	}
+	counterOK := false
+	if incr != nil && nStores == 1 {
+		if bo, ok := incr.Val.(*ssa.BinOp); ok && bo.Op == token.ADD && isNavgLoad(bo.X) {
+			if k, ok := constFloatOf(bo.Y); ok && k == 1 {
+				// guard navg < C with C >= 4 (or none)
+				for _, e := range ana.ControlDeps(do).Direct(incr.Block()) {
+					if iff, ok := e.From.Instrs[len(e.From.Instrs)-1].(*ssa.If); ok {
+						if c, ok := iff.Cond.(*ssa.BinOp); ok && c.Op == token.LSS && isNavgLoad(c.X) && e.Succ == 0 {
+							if lim, ok := constFloatOf(c.Y); ok && lim >= 4 {
+								counterOK = true
+							}
+						}
+					}
+				}
+			}
+		}
+	}
+	if counterOK {
+		r.Ok("C17.ntimed", fname, "sample-counter", posOf(p, incr), "the sample counter is 0 after Reset and grows by exactly 1 per sample while below a limit >= 4")
+	} else {
+		r.Violate("C17.ntimed", fname, "sample-counter", p.Pos(do.Pos()), "the sample counter is not (0 at reset, +1 per sample up to a limit >= 4): 'fewer than four samples' cannot be decided from it")
+		return
+	}
+	// (3) every arm that replaces mid by something else than the raw value is entered only with
+	// counter > 3 (i.e. from the fourth sample on) and with the sample outside a learned bound
+	ph, ok := mid.(*ssa.Phi)
+	if !ok {
+		if mid == raw {
+			r.Ok("C17.ntimed", fname, "non-raw-arms", posOf(p, cs[0]), "mid is always the raw value")
+		} else {
+			r.Violate("C17.ntimed", fname, "non-raw-arms", posOf(p, cs[0]), "UNDECIDED: mid is neither the raw value nor a merge of arms")
+		}
+		return
+	}
+	domTrue := func(b *ssa.BasicBlock, match func(c *ssa.BinOp) bool) bool {
+		for _, g := range do.Blocks {
+			iff := (*ssa.If)(nil)
+			if n := len(g.Instrs); n > 0 {
+				iff, _ = g.Instrs[n-1].(*ssa.If)
+			}
+			if iff == nil {
+				continue
+			}
+			c, ok := iff.Cond.(*ssa.BinOp)
+			if !ok || !match(c) {
+				continue
+			}
+			s := g.Succs[0]
+			if len(s.Preds) == 1 && (s == b || s.Dominates(b)) {
+				// the counter must have been incremented before this test
+				if incr.Block().Dominates(g) || postDominatedBy(incr.Block(), g) {
+					return true
+				}
+			}
+		}
+		return false
+	}
+	nArms := 0
+	for i, e := range ph.Edges {
+		if e == raw {
+			continue
+		}
+		nArms++
+		b := ph.Block().Preds[i]
+		fourth := domTrue(b, func(c *ssa.BinOp) bool {
+			k, ok := constFloatOf(c.Y)
+			return ok && isNavgLoad(c.X) && ((c.Op == token.GTR && k >= 3) || (c.Op == token.GEQ && k > 3))
+		})
+		outside := domTrue(b, func(c *ssa.BinOp) bool {
+			return (c.Op == token.LSS && c.X == lo) || (c.Op == token.GTR && c.X == hi) || (c.Op == token.GTR && c.Y == lo) || (c.Op == token.LSS && c.Y == hi)
+		})
+		key := fmt.Sprintf("non-raw-arm:%d", nArms)
+		switch {
+		case fourth && outside:
+			r.Ok("C17.ntimed", fname, key, p.Pos(e.Pos()), "this arm replaces the raw value only from the fourth sample since reset on and only for a sample outside a learned bound")
+		case !fourth:
+			r.Violate("C17.ntimed", fname, key, p.Pos(e.Pos()), "an arm that replaces the raw offset can be taken while the sample counter is <= 3: one of the first three samples since a reset is not returned raw")
+		default:
+			r.Violate("C17.ntimed", fname, key, p.Pos(e.Pos()), "an arm that replaces the raw offset can be taken for a sample that lies within both learned bounds")
+		}
+	}
+	r.Floor("C17.ntimed.non-raw-arms", nArms, 2)
+}
+
+func combReturns(fn *ssa.Function) []*ssa.Return {
+	var out []*ssa.Return
+	ana.Instrs(fn, func(in ssa.Instruction) {
+		if ret, ok := in.(*ssa.Return); ok {
+			out = append(out, ret)
+		}
+	})
+	return out
+}
+
+// postDominatedBy: every path from a's idom-parent region reaches g only after a or bypassing a
+// through a's own guard; used for the counter increment, whose block is conditional
+// (navg < limit) - accepted when the guard block of a dominates g.
+func postDominatedBy(a, g *ssa.BasicBlock) bool {
+	if id := a.Idom(); id != nil {
+		return id.Dominates(g) && g != id
+	}
+	return false
 }
